@@ -20,6 +20,7 @@ func init() {
 			"large aggregation candidates: all sequences of 2-3 units of {3,20000,30000,32768,40000,65000} bytes at MTU {32767,32768,40000,65535}; unit bodies: EVERY body of 1-6 bytes (thorough 7) over {00,01,03,FF} that is legal inside a NAL unit (no 00 00 00 / 00 00 01, no trailing 00), between two other units, 3- and 4-byte start codes, MTU {6,100}",
 			"units with F = 1 go through the payloader alone (the library's parser rejects them): one unit per call, types {1,19,32}, every (layer,TID) of the alphabet, sizes {3, MTU, MTU+1, 3*MTU}, MTU {8,100}, without DONL; the single NAL unit packet must be the unit, every FU must carry F, layer id, TID and FuType of the unit, S first, E last, and the fragments must concatenate to the unit",
 			"DON values are not demanded, only their placement; the payloader's DONL in every FU (pinned by an existing test) is a listed known finding matched by an exact defect model",
+			"every payload and truncation is also decoded by a receiver that has decoded a sibling payload with every optional field before (and all earlier truncations): the same field oracle applies",
 			"the four structure decoders (H265SingleNALUnitPacket, H265AggregationPacket, H265FragmentationUnitPacket, H265PACIPacket) are also called directly on the structure they are for, with the same oracle as H265Packet",
 			"a truncation must be rejected unless the prefix is itself well-formed under the reference parser",
 		},
@@ -453,12 +454,39 @@ func c14Parser(c *mc.Ctx) {
 		c.Notef("form %d DONL=%v payload %s, every truncation", form, donl, hx(payload))
 	}
 	accepted := 0
+	// a second receiver is used for everything: it first decodes a sibling payload of the same
+	// structure that has every optional field (a start fragment, a PACI with an extension), and
+	// then all the truncations in turn; what it decodes must be exactly the encoded values too
+	used := &codecs.H265Packet{}
+	used.WithDONL(donl)
+	{
+		wdv := uint16(0x7A7B)
+		var dvp *uint16
+		if donl {
+			dvp = &wdv
+		}
+		var warm []byte
+		switch form {
+		case 0:
+			warm = ref.H265Single(ref.H265Unit(1, 2, 3, 6, 9), dvp)
+		case 1:
+			warm = ref.H265AP([][]byte{ref.H265Unit(1, 0, 1, 4, 1), ref.H265Unit(1, 0, 1, 5, 2), ref.H265Unit(1, 0, 1, 3, 3)}, dvp, []uint8{9, 8})
+		case 2:
+			warm = ref.H265FU(ref.H265Unit(19, 1, 2, 12, 7), []int{4}, dvp)[0]
+		default:
+			warm = ref.H265PACI(1, 2, 3<<4|8, []byte{0x31, 0x32, 0xC3}, []byte{0x99})
+		}
+		_, _ = used.Unmarshal(warm)
+	}
 	for cut := 0; cut <= len(payload); cut++ {
 		var in []byte
 		if cut > 0 || form%2 == 0 {
 			in = clone(payload[:cut])
 		}
 		want, werr := ref.H265Parse(in, donl)
+		if _, uerr := used.Unmarshal(clone(in)); uerr == nil && werr == nil {
+			c14CompareParsed(c, used, want, in, donl)
+		}
 		p := &codecs.H265Packet{}
 		p.WithDONL(donl)
 		_, err := p.Unmarshal(in)
